@@ -125,7 +125,7 @@ Definition host_matches (h : shost) (utf8 : bytes) (packed : option bytes) : boo
 
 Definition chk_socks (c : list bytes * (bool * list bytes * bool * option (bytes * option bytes * Z) * option bytes)) : bool :=
   let '(chunks, (raised, writes, open, fwd, lft)) := c in
-  match s_run true false socks_init chunks 0 with
+  match s_run true true socks_init chunks 0 with
   | LFuel => false
   | LRaised _ => raised
   | LDone s _ =>
@@ -138,10 +138,11 @@ Definition chk_socks (c : list bytes * (bool * list bytes * bool * option (bytes
       match lft with None => true | Some l => zlist_eqb (sbuf s) l end
   end.
 
-(* the same conversations on the repaired model never raise (used to size what the repair changes) *)
-Definition chk_socks_repaired_quiet (c : list bytes * (bool * list bytes * bool * option (bytes * option bytes * Z) * option bytes)) : bool :=
+(* what the same conversations did before fix 7ae04cf (handler left in place by close()): used to count how
+   many generated inputs would have raised *)
+Definition chk_socks_old_raises (c : list bytes * (bool * list bytes * bool * option (bytes * option bytes * Z) * option bytes)) : bool :=
   let '(chunks, _) := c in
-  match s_run true true socks_init chunks 0 with LDone _ _ => true | _ => false end.
+  match s_run true false socks_init chunks 0 with LRaised _ => false | _ => true end.
 
 (* ---- banner / version -------------------------------------------------------------------- *)
 (* observed class: 0 open, no version yet; 1 version accepted, still open; 2 closed with ProtocolError;
